@@ -124,6 +124,13 @@ def obligations(tier, seed):
                             keydetail="index-invariant", replay=dict(scenario="c03_subid_collision", vars={}, fixed={}, region=z3.BoolVal(True)), **common))
     out += _id_range_kernel(core)
     out += _insert_before_send(core)
+    # responses inside array frames (next to notifications) and the entries of a batch are calls too
+    from . import C05 as _c05, C12 as _c12
+    for r in _c05.array_obligations(core, (2,) if tier == "quick" else (2, 3), skip_scenario="c03_mixed_frame"):
+        if r["name"].endswith(":none-skipped"):
+            out.append(r)
+    for r in _c12.ws_front_obligations(core, (2,) if tier == "quick" else (2, 3)):
+        out.append(r)
     return out
 
 
